@@ -782,12 +782,13 @@ func (w *World) checkHandleView(hs *HandleState, cr *CallRec) {
 		w.violate(prop, "handle-view", "no-such-version/"+cr.Kind, fmt.Sprintf("after %s (%s) handle %d holds %v which was never the content of tables.list", cr.Kind, cr.Class, hs.Idx, names))
 		return
 	}
-	if hs.Version >= 0 && v.N < hs.Version && len(names) > 0 {
-		w.violate(prop, "handle-view", "went-back/"+cr.Kind, fmt.Sprintf("handle %d moved from version %d back to %d", hs.Idx, hs.Version, v.N))
+	if hs.Version >= 0 && v.N < hs.Version {
+		// also for an empty view: versionOfNames returns the LATEST version
+		// with these names, so an empty list committed after the handle's
+		// version would have been found
+		w.violate(prop, "handle-view", "went-back/"+cr.Kind, fmt.Sprintf("handle %d moved from version %d back to %d (%d tables)", hs.Idx, hs.Version, v.N, len(names)))
 	}
-	if v.N >= hs.Version || len(names) > 0 {
-		hs.Version = v.N
-	}
+	hs.Version = v.N
 	if hs.St.Merged() == nil {
 		w.violate(prop, "handle-view", "nil-merged/"+cr.Kind, "handle has no merged view")
 		return
